@@ -93,6 +93,10 @@ struct Ctx {
 Ctx& ctx();
 
 [[noreturn]] void fatal_exit();   // violation recorded, case cannot continue: flush + _exit(4)
+// The running case turned out to belong to a known finding in a way that cannot be continued (e.g. std::terminate was
+// called): count it as excluded, flush the counters and leave with exit code 77; the shard runner starts a fresh process
+// for the rest of the budget.  In replay mode: report "discarded" and exit 0.
+[[noreturn]] void excluded_exit(const char* why);
 
 std::string sfmt(const char* fmt, ...) __attribute__((format(printf, 1, 2)));
 
